@@ -187,7 +187,7 @@ fn answer_of_step(code: u8, salt: u8) -> Answer {
     match answer_of(code) {
         Answer::SigErr(k, m) => Answer::SigErr(k, format!("{} ({})", m, salt % 24)),
         // the concrete type of a foreign error follows the number as well
-        Answer::Foreign(m) => Answer::Foreign(format!("{} ({})", m, salt % 8)),
+        Answer::Foreign(m) => Answer::Foreign(format!("{} #{} ({})", m, salt / 8 % 97, salt % 8)),
         other => other,
     }
 }
